@@ -11,7 +11,7 @@ import z3
 from pyvc import frames
 from pyvc.api import Contract, Interp, NDArr, Obj, conj, farr, iarr, real_matrix, reals, shell, source
 from pyvc.symex import Frame, ModelFn as _MF
-from pyvc.values import PyRaise, Unsupported, z, to_real
+from pyvc.values import PyRaise, Unsupported, z, to_real, num_cmp
 
 from contracts.gen_crystals import MOLS, molecular_crystal
 
@@ -149,6 +149,7 @@ def build(ctx):
                 detail=[ast.unparse(n) for n in cmp_nodes], fn=f_sum, fallback=shapes_fallback)
 
     unwrap_instances(ctx, mod)
+    connectivity_instances(ctx, mod, lambda m=None: fixed_native_cases())
     bounded(ctx)
 
 
@@ -300,6 +301,136 @@ def unwrap_instances(ctx, mod):
     # instance 1: star 0-1, 0-2 (both successors larger than their predecessor);  instance 2: path 0-2-1 (predecessor 2 > successor 1)
     ctx.attempt("crystal.Crystal.unit_cell_molecules/ensures/star", lambda: run_instance("star", [(0, 1), (0, 2)], [cA, cB]), replay=native_replay, fn=f_ucm)
     ctx.attempt("crystal.Crystal.unit_cell_molecules/ensures/path_reversed", lambda: run_instance("path_reversed", [(0, 2), (1, 2)], [cA, cB]), replay=native_replay, fn=f_ucm)
+
+
+def connectivity_instances(ctx, mod, native_replay):
+    """unit_cell_connectivity executed on symbolic instances with two unit-cell atoms.  The slab is a modular contract (reference cell first,
+    then one block of n_uc rows per neighbouring cell, `cell` giving the block's cell index); the KD-tree query is modelled exactly
+    (every pair within max_distance, any distances); covalent radii are arbitrary positive reals.
+    Ensures: the stored edges are exactly {(0,1)} when atom 0 is bonded to atom 1 in the reference cell or to an image of atom 1 in a
+    listed neighbour cell (bonded: 1e-3 < d < r0 + r1 + tol), keyed i<j, with the bond length and the cell of THAT image; nothing else is stored."""
+    f_ucc = ctx.fn(CR, "Crystal.unit_cell_connectivity")
+    r = {8: z3.Real("r_O"), 1: z3.Real("r_H")}
+    tol = z3.Real("tol")
+
+    class _Tree:
+        pass
+
+    class _Dok:
+        pass
+
+    def kdtree_model(I2, pts, *a, **k):
+        t = _Tree()
+        t.pts = pts
+        return t
+
+    def run(tag, nblocks, far_hyp):
+        cells = [[z3.Int(f"c{b}_{i}") for i in range(3)] for b in range(nblocks)]
+        nrow = 2 + 2 * nblocks
+        FP = real_matrix("fp", nrow, 3)
+        dist = {}
+
+        def dvar(a_, b_):
+            key = (min(a_, b_), max(a_, b_))
+            if key not in dist:
+                dist[key] = z3.Real(f"d_{key[0]}_{key[1]}")
+            return dist[key]
+
+        def sdm(I2, tree, other, max_distance=None, **k):
+            """exact model: the stored pairs are exactly those with distance <= max_distance; rows of `other` are slab rows offset by 2 when it is the
+            neighbour tree.  Diagonal pairs of a tree with itself have distance 0 and may or may not be stored."""
+            same = other is tree
+            n1, n2 = tree.pts.shape[0], other.pts.shape[0]
+            items = []
+            for i in range(n1):
+                for j in range(n2):
+                    if same and i == j:
+                        if I2.decide(z3.Bool(f"diag_stored_{i}")):
+                            items.append(((i, j), 0))
+                        continue
+                    d = dvar(i, j) if same else dvar(i, 2 + j)
+                    if I2.decide(I2.truth(num_cmp("<=", d, max_distance))):
+                        items.append(((i, j), d))
+            dk = _Dok()
+            dk.pairs = items
+            return dk
+
+        def slab(I2, self_, bounds=None, **k):
+            cellrows = [[0, 0, 0], [0, 0, 0]] + [list(c) for c in cells for _ in range(2)]
+            return {"n_uc": 2, "frac_pos": farr(FP), "element": iarr([8, 1] * (1 + nblocks)), "cell": iarr(cellrows)}
+
+        def elem(I2, *a_):
+            n_ = a_[-1]
+            ecls = I2.class_of(source.load_module("chmpy.core.element"), "Element")
+            return Obj(ecls, {"cov": r[int(n_)], "atomic_number": int(n_)})
+        tag_cart = {}
+
+        def to_cart(I2, self_, coords):
+            return coords          # distances are the model's d variables: the Cartesian values themselves are never inspected
+        models = {"scipy.spatial.cKDTree": _MF("scipy.cKDTree", kdtree_model), "_Tree.sparse_distance_matrix": _MF("scipy.cKDTree.sparse_distance_matrix(exact: pairs with d <= max_distance)", sdm),
+                  "_Dok.items": _MF("dok.items", lambda I2, d: list(d.pairs)),
+                  "scipy.sparse.dok_matrix": _MF("scipy.sparse.dok_matrix(as a dictionary of keys)", lambda I2, shape, **k: {})}
+        contracts = {CR + ".Crystal.slab": Contract(result=slab), CR + ".Crystal.to_cartesian": Contract(result=to_cart),
+                     "chmpy.crystal.unit_cell.UnitCell.to_cartesian": Contract(result=to_cart),
+                     "chmpy.core.element.Element.from_atomic_number": Contract(result=elem)}
+        I = ctx.interp(contracts=contracts, models=models)
+        for k_, v_ in models.items():
+            I.models[k_] = v_
+        CRcls = I.class_of(mod, "Crystal")
+
+        def thunk(I2, a, kw):
+            uc = shell(I2, "chmpy.crystal.unit_cell", "UnitCell")
+            cr = Obj(CRcls, {"unit_cell": uc})
+            out = I2.call(I2.getattr(cr, "unit_cell_connectivity"), [], {"tolerance": tol})
+            return out, cr
+        dpos = [z3.Real(f"d_{a_}_{b_}") >= 0 for a_ in range(nrow) for b_ in range(a_ + 1, nrow)]
+        # statement's hypothesis: no atom is bonded to its own periodic image
+        own = [z3.Real(f"d_{a_}_{2 + 2 * b + a_}") >= 2 * r[(8, 1)[a_]] + tol for a_ in range(2) for b in range(nblocks)]
+        pre = [tol >= 0, r[8] > 0, r[1] > 0] + dpos + own + far_hyp(lambda a_, b_: z3.Real(f"d_{min(a_, b_)}_{max(a_, b_)}"), r, tol)
+        res = I.explore(thunk, pre=pre)
+        lab = f"crystal.Crystal.unit_cell_connectivity/ensures/{tag}"
+        if not res:
+            return ctx.undecided(lab, "no path")
+        thr = r[8] + r[1] + tol
+        bonded = lambda d: z3.And(d > z3.Q(1, 1000), d < thr)
+        d01 = z3.Real("d_0_1")
+        dn = [z3.Real(f"d_0_{2 + 2 * b + 1}") for b in range(nblocks)]          # atom 0 -- image of atom 1 in block b
+        for k, rr in enumerate(res):
+            sfx = f"/path{k}"
+            if rr.kind != "return":
+                ctx.prove(lab + "/returns" + sfx, rr.pc, z3.BoolVal(False), clause=f"returns normally (raised {getattr(rr.value, 'exc_type', '?')})", fn=f_ucc, replay=native_replay)
+                continue
+            (graph, props), cr = rr.value
+            keys = list(props.keys())
+            goals = [z3.BoolVal(all(tuple(int(x) for x in kk) == (0, 1) for kk in keys)), z3.BoolVal([tuple(int(x) for x in kk) for kk in graph.keys()] == [tuple(int(x) for x in kk) for kk in keys]),
+                     z3.BoolVal("_uc_graph" in cr.fields)]
+            any_bond = z3.Or([bonded(d01)] + [bonded(d_) for d_ in dn])
+            goals.append(any_bond if keys else z3.Not(any_bond))
+            if keys:
+                cell = props[keys[0]]
+                length = graph[keys[0]]
+                # the LAST bonded image in slab order is the one stored (a later store under the same key replaces an earlier one); under the statement's
+                # hypothesis (one bonding image per pair) it is THE image
+                cases = []
+                for b in reversed(range(nblocks)):
+                    later = [z3.Not(bonded(dn[b2])) for b2 in range(b + 1, nblocks)]
+                    cases.append(z3.Implies(z3.And([bonded(dn[b])] + later), z3.And([z(cell[i]) == cells[b][i] for i in range(3)] + [z(length) == dn[b]])))
+                cases.append(z3.Implies(z3.And([z3.Not(bonded(d_)) for d_ in dn]), z3.And([z(cell[i]) == 0 for i in range(3)] + [z(length) == d01])))
+                goals += cases
+            ctx.prove(lab + "/edges" + sfx, rr.pc, conj(goals),
+                      clause="stored keys are (0,1) only (i<j; self-images and the mirrored pair are skipped), present iff atom 0 is bonded (1e-3 < d < r0+r1+tol) to atom 1 or to one of its "
+                             "listed images; the stored cell and length are those of the bonding image; the same keys in the sparse matrix; the result is memoised",
+                      fn=f_ucc, replay=native_replay)
+        ctx.safety(f"crystal.Crystal.unit_cell_connectivity/{tag}", res, fn=f_ucc, replay=native_replay)
+
+    # A: one neighbouring block, every pair may or may not be in range (skip logic in full generality)
+    ctx.attempt("crystal.Crystal.unit_cell_connectivity/ensures/one_block", lambda: run("one_block", 1, lambda d, r_, t_: []), replay=native_replay, fn=f_ucc)
+    # B: two neighbouring blocks; only the pairs (0, image of 1) may be in range (the others are beyond 2 max(r) + tol by hypothesis): the stored cell is the block's own
+    def far(d, r_, t_):
+        big = 2 * z3.If(r_[8] >= r_[1], r_[8], r_[1]) + t_
+        keep = {(0, 1), (0, 3), (0, 5)}
+        return [d(a_, b_) > big for a_ in range(6) for b_ in range(a_ + 1, 6) if (a_, b_) not in keep and a_ < 2]
+    ctx.attempt("crystal.Crystal.unit_cell_connectivity/ensures/two_blocks", lambda: run("two_blocks", 2, far), replay=native_replay, fn=f_ucc)
 
 
 def bounded(ctx):
